@@ -64,8 +64,8 @@ fn ids_model() -> String {
 }
 
 pub fn record(p: &lit::Prog, s: &sync::SProg) -> Record {
-    let r = lit::run(p, &lit::Cfg { iter_cap: 60_000, keep_paths: true, keep_seq: true, ..Default::default() });
-    let l = sync::run_loom(s, &sync::SCfg { iter_cap: 60_000, max_branches: 5000, keep_paths: true, ..Default::default() });
+    let r = lit::run(p, &lit::Cfg { iter_cap: 30_000, keep_paths: true, keep_seq: true, ..Default::default() });
+    let l = sync::run_loom(s, &sync::SCfg { iter_cap: 30_000, max_branches: 5000, keep_paths: true, ..Default::default() });
     Record {
         lit_seq: fnv(&format!("{:?}", r.seq)),
         lit_orders: fnv(&format!("{:?}", r.order_seq)),
@@ -109,7 +109,8 @@ fn dirty(rng: &mut Rng) -> usize {
 
 pub fn total(tier: u8) -> usize {
     if tier == 0 {
-        64
+        // 8 + 8 pristine-replay probes and 26 three-way comparisons
+        42
     } else {
         240
     }
@@ -167,9 +168,11 @@ fn leak_probe(rec: &mut Rec, i: usize, seed: u64) {
     let dir = verif_root().join("work");
     let _ = std::fs::create_dir_all(&dir);
     let file = dir.join(format!("iso-ckpt-{}-{}-{}.json", std::process::id(), seed, i)).to_string_lossy().to_string();
-    let step = (n / 40).max(1);
+    // stopping at k costs k iterations: stop points among the first 400 iterations only
+    let upto = n.min(400);
+    let step = (upto / 40).max(1);
     let mut compared = 0;
-    for k in (2..=n).step_by(step) {
+    for k in (2..=upto).step_by(step) {
         let _ = std::fs::remove_file(&file);
         let _ = lit::run(&p, &lit::Cfg { checkpoint_file: Some(file.clone()), checkpoint_interval: Some(1), max_permutations: Some(k), ..cfg.clone() });
         // the resumed run only needs its first few iterations
@@ -248,9 +251,10 @@ fn sync_leak_probe(rec: &mut Rec, i: usize, seed: u64) {
     let dir = verif_root().join("work");
     let _ = std::fs::create_dir_all(&dir);
     let file = dir.join(format!("iso-sckpt-{}-{}-{}.json", std::process::id(), seed, i)).to_string_lossy().to_string();
-    let step = (n / 30).max(1);
+    let upto = n.min(300);
+    let step = (upto / 30).max(1);
     let mut compared = 0;
-    for k in (2..=n).step_by(step) {
+    for k in (2..=upto).step_by(step) {
         let _ = std::fs::remove_file(&file);
         let _ = sync::run_loom(&p, &sync::SCfg { checkpoint_file: Some(file.clone()), checkpoint_interval: Some(1), max_permutations: Some(k), ..cfg.clone() });
         let rest = sync::run_loom(&p, &sync::SCfg { checkpoint_file: Some(file.clone()), checkpoint_interval: Some(1), max_permutations: Some(4), ..cfg.clone() });
